@@ -28,6 +28,8 @@ def run_one(args):
     name = os.path.basename(d)
     meta = json.load(open(os.path.join(d, 'meta.json')))
     pid = meta['property']
+    if meta.get('superseded'):
+        return name, pid, {'_superseded': ('SUPERSEDED', [meta['superseded'][:60]])}
     tmp = tempfile.mkdtemp(prefix='seedchk-', dir='/var/tmp')
     try:
         subprocess.run(f'git -C /repo archive HEAD src config docs | tar -x -C {tmp}', shell=True, check=True)
@@ -59,6 +61,7 @@ def main():
     with ProcessPoolExecutor(max_workers=16) as ex:
         results = list(ex.map(run_one, [(d, own) for d in dirs]))
     det = 0
+    results = [r for r in results if '_superseded' not in r[2]]
     for name, pid, out in results:
         v = {p: r for p, r in out.items() if r[0] == 'VIOLATION'}
         e = {p: r for p, r in out.items() if r[0] == 'ERR'}
